@@ -31,5 +31,12 @@ def build(tier):
         o = C12.mod_ob(hn, 2, bl, 2, True, 300 if quick else 1200)
         o.name = o.name.replace('C12.c', 'C07.a module doccomment body')
         obs.append(o)
+    # C07.c no renderer input can gain a line break on the way from the source: values/help texts with the escape sequences \\n \\t \\\\
+    # (no line break in the source argument) reach the page as written, on one line, inside their entry
+    C10 = importlib.import_module('C10')
+    for (cmd, cls, doc) in (("set", ["quo_nl"], True), ("set", ["quo_nl", "id"], True), ("option", ["quo_nl", "id"], True)):
+        o = C10.ob(cmd, cls, 2, doc, timeout=300 if quick else 1200)
+        o.name = o.name.replace('C10.a', 'C07.c escape sequences stay text (no line break enters a field)')
+        obs.append(o)
     obs.append(c07b.ob_docutils())
     return dict(obligations=obs, explanation="x", assumptions=[])
